@@ -11,6 +11,7 @@ package main
 import (
 	"fmt"
 	"go/token"
+	"go/types"
 	"sort"
 	"strings"
 
@@ -174,6 +175,46 @@ func checkScanFilter(w *World, r *Report, tm *Terms, rule string) {
 			}
 		}
 	}
+	// a function that hands the list of a scan on to its own caller (possibly after keeping only some elements by
+	// another criterion) is a scan itself: the obligations fall on whoever uses the elements
+	passThrough := map[*ssa.Function]bool{}
+	for changed := true; changed; {
+		changed = false
+		for _, fn := range w.Funcs {
+			if global[fn] || fn.Blocks == nil || fn.Signature.Results().Len() == 0 {
+				continue
+			}
+			if _, isSlice := fn.Signature.Results().At(0).Type().Underlying().(*types.Slice); !isSlice {
+				continue
+			}
+			var scans []*ssa.Call
+			for _, b := range fn.Blocks {
+				for _, in := range b.Instrs {
+					if c, ok := in.(*ssa.Call); ok {
+						if callee := w.calleeBody(&c.Call); callee != nil && global[callee] {
+							scans = append(scans, c)
+						}
+					}
+				}
+			}
+			if len(scans) == 0 {
+				continue
+			}
+			returned := false
+			for _, b := range fn.Blocks {
+				if ret, ok := b.Instrs[len(b.Instrs)-1].(*ssa.Return); ok && len(ret.Results) > 0 {
+					for _, sc := range scans {
+						if derivesFrom(ret.Results[0], sc) {
+							returned = true
+						}
+					}
+				}
+			}
+			if returned {
+				global[fn], passThrough[fn], changed = true, true, true
+			}
+		}
+	}
 	// a walker whose callback only keeps elements of the auction whose id is one of the walker's parameters
 	filteredBy := map[*ssa.Function]int{}
 	for fn, mc := range callback {
@@ -256,11 +297,24 @@ func checkScanFilter(w *World, r *Report, tm *Terms, rule string) {
 					continue
 				}
 				callee := w.calleeBody(&c.Call)
-				if callee == nil || !global[callee] {
+				if callee == nil || !global[callee] || passThrough[fn] {
 					continue
 				}
 				n++
 				construct := fmt.Sprintf("%s:scan#%d", fnName(fn), n)
+				// the scanned list: the call's result, or (when the callee merely forwards to another scanner and the term
+				// engine has inlined it) the inner scanner's result
+				isScan := func(x *Term) bool {
+					if x.V == ssa.Value(c) {
+						return true
+					}
+					if ic, ok := x.V.(*ssa.Call); ok && x.Op == "call" {
+						if h := w.calleeBody(&ic.Call); h != nil && global[h] {
+							return true
+						}
+					}
+					return false
+				}
 				if idx, filtered := filteredBy[callee]; filtered {
 					// the walker itself keeps only the elements of the auction whose id it is given: that id must be the
 					// operated auction's
@@ -273,78 +327,114 @@ func checkScanFilter(w *World, r *Report, tm *Terms, rule string) {
 					why := "the walker is not given an auction id"
 					if idx < len(args) {
 						at := tm.OperandAt(fr, in, args[idx])
-						okID = (isField(at, "Id") || isField(at, "AuctionId")) && !at.Any(func(x *Term) bool { return x.V == ssa.Value(c) })
+						okID = (isField(at, "Id") || isField(at, "AuctionId")) && !at.Any(func(x *Term) bool { return isScan(x) })
 						why = "the scan is filtered by " + at.String() + ", not by the operated auction's id"
 					}
 					r.Check(okID, rule, construct, w.instrPos(in),
 						"the unprefixed Bid scan ("+fnName(callee)+") keeps only the elements whose AuctionId equals the operated auction's id", why+": a bidder's bids in one auction count against (or for) another auction")
 					continue
 				}
-				// elements of the result list
+				// elements of the result list, in this function and in the helpers the list is handed to
 				var bad, skipEnds []string
-				guard := (*ssa.BasicBlock)(nil)
-				for _, bb := range fn.Blocks {
-					iff, ok := bb.Instrs[len(bb.Instrs)-1].(*ssa.If)
-					if !ok {
-						continue
-					}
-					bo, ok := iff.Cond.(*ssa.BinOp)
-					if !ok || (bo.Op != token.EQL && bo.Op != token.NEQ) {
-						continue
-					}
-					l, rt := tm.Of(fr, bo.X), tm.Of(fr, bo.Y)
-					isElemAuc := func(t *Term) bool {
-						return isField(t, "AuctionId") && t.Args[0].Any(func(x *Term) bool { return x.V == ssa.Value(c) })
-					}
-					isOwn := func(t *Term) bool {
-						return (isField(t, "Id") || isField(t, "AuctionId")) && !t.Any(func(x *Term) bool { return x.V == ssa.Value(c) })
-					}
-					if (isElemAuc(l) && isOwn(rt)) || (isElemAuc(rt) && isOwn(l)) {
-						// the successor taken when the ids are equal
-						other := bb.Succs[0]
-						if bo.Op == token.EQL {
-							guard, other = bb.Succs[0], bb.Succs[1]
-						} else {
-							guard = bb.Succs[1]
+				guardFound := false
+				var analyse func(fn *ssa.Function, fr *Frame, depth int)
+				analyse = func(fn *ssa.Function, fr *Frame, depth int) {
+					guard := (*ssa.BasicBlock)(nil)
+					for _, bb := range fn.Blocks {
+						iff, ok := bb.Instrs[len(bb.Instrs)-1].(*ssa.If)
+						if !ok {
+							continue
 						}
-						// an element of another auction is skipped, it does not end the scan: the other successor
-						// stays inside the loop that visits the elements
-						if lp := fnInfo(fn).LoopOf[bb]; lp != nil && !lp.Blocks[other] {
-							skipEnds = append(skipEnds, w.instrPos(iff))
+						bo, ok := iff.Cond.(*ssa.BinOp)
+						if !ok || (bo.Op != token.EQL && bo.Op != token.NEQ) {
+							continue
+						}
+						l, rt := tm.Of(fr, bo.X), tm.Of(fr, bo.Y)
+						isElemAuc := func(t *Term) bool {
+							return isField(t, "AuctionId") && t.Args[0].Any(func(x *Term) bool { return isScan(x) })
+						}
+						isOwn := func(t *Term) bool {
+							return (isField(t, "Id") || isField(t, "AuctionId")) && !t.Any(func(x *Term) bool { return isScan(x) })
+						}
+						if (isElemAuc(l) && isOwn(rt)) || (isElemAuc(rt) && isOwn(l)) {
+							// the successor taken when the ids are equal
+							other := bb.Succs[0]
+							if bo.Op == token.EQL {
+								guard, other = bb.Succs[0], bb.Succs[1]
+							} else {
+								guard = bb.Succs[1]
+							}
+							// an element of another auction is skipped, it does not end the scan: the other successor
+							// stays inside the loop that visits the elements
+							if lp := fnInfo(fn).LoopOf[bb]; lp != nil && !lp.Blocks[other] {
+								skipEnds = append(skipEnds, w.instrPos(iff))
+							}
+						}
+					}
+					// every use of an element (other than the AuctionId comparison) must be dominated by the guard's true edge
+					for _, bb := range fn.Blocks {
+						for _, in2 := range bb.Instrs {
+							cl, ok := in2.(*ssa.Call)
+							if !ok || cl == c {
+								continue
+							}
+							uses := false
+							for _, a := range cl.Call.Args {
+								// the argument is an element of the scanned list (or a field of one), not a value accumulated from them
+								at := tm.OperandAt(fr, in2, a)
+								for at.Op == "field" || at.Op == "new" || at.Op == "deref" {
+									at = at.Args[0]
+								}
+								if at.Op == "elem" && at.Args[0].Any(func(y *Term) bool { return isScan(y) }) {
+									uses = true
+								}
+							}
+							if !uses {
+								continue
+							}
+							if guard == nil || !(guard == bb || guard.Dominates(bb)) {
+								bad = append(bad, w.instrPos(in2))
+							}
+						}
+					}
+					if guard != nil {
+						guardFound = true
+					}
+					// helpers that are handed the list itself
+					if depth < 3 {
+						for _, bb := range fn.Blocks {
+							for _, in2 := range bb.Instrs {
+								cl, ok := in2.(*ssa.Call)
+								if !ok || cl == c {
+									continue
+								}
+								h := w.calleeBody(&cl.Call)
+								if h == nil || !w.isRepoPkg(pkgOf(h)) || w.isGenerated(h) {
+									continue
+								}
+								gets := false
+								for _, a := range cl.Call.Args {
+									if _, isSlice := a.Type().Underlying().(*types.Slice); !isSlice {
+										continue
+									}
+									at := uncell(tm.OperandAt(fr, in2, a))
+									if at.Any(func(y *Term) bool { return isScan(y) }) && at.Op != "elem" {
+										gets = true
+									}
+								}
+								if gets {
+									analyse(h, tm.Enter(fr, cl, h), depth+1)
+								}
+							}
 						}
 					}
 				}
-				// every use of an element (other than the AuctionId comparison) must be dominated by the guard's true edge
-				for _, bb := range fn.Blocks {
-					for _, in2 := range bb.Instrs {
-						cl, ok := in2.(*ssa.Call)
-						if !ok || cl == c {
-							continue
-						}
-						uses := false
-						for _, a := range cl.Call.Args {
-							// the argument is an element of the scanned list (or a field of one), not a value accumulated from them
-							at := tm.OperandAt(fr, in2, a)
-							for at.Op == "field" || at.Op == "new" || at.Op == "deref" {
-								at = at.Args[0]
-							}
-							if at.Op == "elem" && at.Args[0].Any(func(y *Term) bool { return y.V == ssa.Value(c) }) {
-								uses = true
-							}
-						}
-						if !uses {
-							continue
-						}
-						if guard == nil || !(guard == bb || guard.Dominates(bb)) {
-							bad = append(bad, w.instrPos(in2))
-						}
-					}
-				}
+				analyse(fn, fr, 0)
 				sort.Strings(bad)
 				r.Check(len(skipEnds) == 0, rule, construct+":skip-continues", w.instrPos(in),
 					"an element of another auction met by the scan is skipped and the scan goes on to the next element",
 					"the auction filter at "+strings.Join(skipEnds, ", ")+" leaves the loop when it meets an element of another auction: the scan is ordered by (auction id, bid id), so a bidder's bid in an auction with a lower id hides all their bids in this auction from the total")
-				r.Check(len(bad) == 0 && guard != nil, rule, construct, w.instrPos(in),
+				r.Check(len(bad) == 0 && guardFound, rule, construct, w.instrPos(in),
 					"the result of the unprefixed Bid scan ("+fnName(callee)+") is used only for elements whose AuctionId equals the operated auction's id",
 					"elements of a scan over all auctions' bids are used without the auction filter at "+strings.Join(dedupe(bad), ", ")+": a bidder's bids in one auction count against (or for) another auction")
 			}
@@ -372,7 +462,7 @@ func checkC05(w *World, r *Report) {
 	tm := NewTerms(w)
 	tree := settlementTree(w)
 	checkCapMin(w, r, tm, tree)
-	checkSupplyGuard(w, r, tm, tree)
+	checkSupplyGuard(w, r, tm, tree, true)
 	fixedPriceGuards(w, r, tm)
 	checkAddrCanon(w, r, tm)
 	// CAP-COVER: the caps above are stated per bid type; every bid type the message validation admits must be one of them,
@@ -389,5 +479,5 @@ func checkC05(w *World, r *Report) {
 	// a fixed price bid's cap is enforced once, at acceptance: it stays valid only if the bid is never changed afterwards
 	r.Sub(checkC06, "FP-NO-REWRITE")
 	// the allowances read at settlement and at acceptance are those of the operated auction
-	r.Sub(checkC19, "PREFIX-RANGE")
+	r.SubWhere(checkC19, keepAny(":AllowedBidder:", ":Bid:"), "PREFIX-RANGE")
 }
